@@ -9,9 +9,9 @@ NOTE_COMMON = ("Trusted: Coq 8.16.1 kernel + VM (no native_compute), no axioms (
                "extraction (ExtrOcamlBasic only) + OCaml driver; the Rust harness (SimNor device model) ; the Python driver and oracles.")
 
 CLAIMS = {
- "C01": ("proof + correspondence: byte-level reconstruction soundness over the flash-backed storages (flash_reconstruction_sound, chained to recon_sound) and the CRC gate of check_and_mark_done are theorems; the byte-level model Mgr.v is compared operation by operation (results, counters, every flash program) with the real Updater on generated sessions incl. ring histories, in the matrix and matrix+force-full-r builds, and with the storage-interface model the theorem is about; oracle: final flash image = transmitted image, validation, header, counters.",
+ "C01": ("proof + correspondence: on the executable byte-level model itself (Mgr.v) start_update Ok + every handle_segment Ok + one FirmwareComplete => status bytes 0x33 and data region = image, for every geometry, device contents, build mode, image and consistent delivery (c01_executable_model_update_sound: Mgr.flash_sto refines the storage-interface instance, MRecon = GRecon on Ok calls, flash_reconstruction_sound, recon_sound) and the CRC gate of check_and_mark_done are theorems; the byte-level model Mgr.v is compared operation by operation (results, counters, every flash program) with the real Updater on generated sessions incl. ring histories, in the matrix and matrix+force-full-r builds, also with clean reboots in between, and with the storage-interface model; oracle: final flash image = transmitted image, validation, header, counters.",
          "6 C01", "Coq proof (refinement flash storages -> abstract reconstructor) + differential model/implementation session stream + image oracle"),
- "C02": ("proof: recon_sound for every n, block size, capacity, matrix obeying the contract, original data and consistent block sequence (induction over the block list); correspondence of the reconstructor model with parity-reconstruct on generated sequences incl. every storage call; oracle on data-store arguments / final store.",
+ "C02": ("proof: recon_sound for every n, block size, capacity, matrix obeying the contract, original data and consistent block sequence (induction over the block list), and the executable model run by the stream is Recon.run (c02_executable_model_is_recon); correspondence of the reconstructor model with parity-reconstruct on generated sequences incl. every storage call; oracle on data-store arguments / final store.",
          "6 C02", "Coq proof by invariant over the block list + differential recon stream"),
  "C03": ("proof: done_iff_full_rank (Done exactly when the accepted rows span GF(2)^n) for every contract-respecting matrix and sequence; correspondence on the recon stream; oracle: independent GF(2) rank after every call, refusal predicate, silence after Done / on refusal.",
          "6 C03", "Coq proof (span algebra with ghost witnesses) + differential recon stream + rank oracle"),
@@ -19,7 +19,7 @@ CLAIMS = {
          "6 C05", "Coq proof (ring invariant over histories) + exhaustive closure exploration on the implementation"),
  "C09": ("proof: trace_wf - the storage-call trace of every run passes the write-once monitor; correspondence of the full call log; monitor oracle over the implementation's log incl. buffer lengths.",
          "6 C09", "Coq proof (trace monitor invariant) + differential recon stream"),
- "C11": ("proof over constants regenerated from the compiled crates: parse iff legal, both round trips, pinned deployed values for both crates, clear-only transitions, tear safety for every intermediate pattern (symbolic), classification table, mark effect; correspondence of both crates' codecs and status marks with the model; oracle: reference codec written from the property text.",
+ "C11": ("proof over constants regenerated from the compiled crates: parse iff legal, both round trips, pinned deployed values for both crates, clear-only transitions, tear safety for every intermediate pattern (symbolic), classification table, mark effect; correspondence of both crates' codecs and status marks with the model; the private classification of flash-algo-new is observed through bl / fallback / recovery remediation on every legal header beside a resumable pair; oracle: reference codec written from the property text.",
          "6 C11", "Coq proof over regenerated constants + differential layout stream"),
  "C12": ("proof: along every history (every N >= 4) both queries equal what the abstract lifecycle says; checked in every reachable state of the closure on the real SlotManager against an independent lifecycle tracker.",
          "6 C12", "Coq proof (ghost lifecycle refinement over histories) + closure exploration on the implementation"),
@@ -29,19 +29,19 @@ CLAIMS = {
          "6 C04", "Coq proof of the ingredients + exhaustive crash/torn enumeration per history, differential against the model"),
  "C06": ("proof + fault enumeration: recovery reads back the durable bookkeeping (recover_roundtrip) and data writes are crash-compatible (compatibility lemmas) are theorems; power loss at every operation boundary of start / every fragment / final mark with both continuations is executed on the real crate and the model; the two windows where the on-flash state is not a sufficient checkpoint are recorded known findings classified from the reference operation log.",
          "6 C06", "Coq proof (checkpoint lemmas) + exhaustive crash-point enumeration per scenario; two known findings"),
- "C07": ("proof + twin runs: what recovery reads from flash is the live bookkeeping at every fragment boundary, and every call preserves the pairing between the flash-backed and the abstract session (theorems); every reboot position of generated scripts (single, several, every position; debug and release) is compared with the uninterrupted run on the real crate and with the model.",
+ "C07": ("proof + twin runs: what recovery reads from flash is the live bookkeeping at every fragment boundary, and every call preserves the pairing between the flash-backed and the abstract session, and on the executable model the two loaders of try_recover_inner return exactly the live done / used bits after any list of Ok calls (theorems); every reboot position of generated scripts (single, several, every position; debug and release) is compared with the uninterrupted run on the real crate and with the model.",
          "6 C07", "Coq proof (refinement / round trip) + twin-run differential"),
  "C08": ("proof: the flash-backed parity / matrix storages can only program inside [parity slot + 0x400, slot end) for any arguments, data blocks and status bytes land where the layout says for accepted geometries, rows / blocks are disjoint (arithmetic for every index and size), NOR read-back; every erase / program of every generated scenario (ring positions incl. the last slot, losses beyond capacity, every other API call via the ring closure) is monitored and compared with the model.",
          "6 C08", "Coq proof (address arithmetic, confinement) + operation-log monitor over differential streams"),
  "C10": ("proof: the three implementation-shaped generators equal the TS004 reference for every M and 1 <= N <= 16383 in both feature modes, index shift of the updater matrix, rows in range / non-empty / exact weight with force-full-r, interop vectors and pinned rows by computation; termination is NOT proved (exercised only); lfdbt stream over exhaustive small and sampled large (M, N) in both builds against the model and an independent reference.",
          "6 C10", "Coq proof (generator = spec) + differential lfdbt stream; termination clause exercised only"),
- "C14": ("proof: the prefix-skip loop digests exactly bytes [68, count*size) for every size and count, CRC-32/CKSUM check value, single-bit detection for every length and position, validation gate iff, read-only validation, CRC gate of the final mark; slots prepared with every fragment size and boundary counts, single-bit corruptions inside / outside the covered range, both crates' routines, against the model and an independent CRC.",
+ "C14": ("proof: the prefix-skip loop digests exactly bytes [68, count*size) for every size and count, CRC-32/CKSUM check value, single-bit detection for every length and position, validation gate iff, read-only validation, CRC gate of the final mark, flash-level routine of the executable model = list-level routine; slots prepared with every fragment size and boundary counts, single-bit corruptions inside / outside the covered range, both crates' routines, against the model and an independent CRC.",
          "6 C14", "Coq proof (loop invariant, CRC algebra) + differential session-crc stream"),
  "C15": ("proof: acceptance iff representable-and-fits, rejection before any flash operation, the binary search returns the largest fitting l < 2048 which is at least the documented capacity and is what the session enforces, refusal exact and harmless; u32 x u32 boundary geometries, every fragment size at several slot sizes incl. 256 KiB, behaviour at exactly L and L+1 losses, against the model and the property's own predicate.",
          "6 C15", "Coq proof (search postcondition, arithmetic) + differential geometry / capacity / loss streams"),
- "C16": ("proof for the data adapter (shared words): its three word programs equal programming the block bytes in place for every write size, block length >= write size, range start and index (get-after-store, frame, contiguity), and the executable model equals the proved one; parity and matrix adapters are covered by correspondence and oracle only; adapters stream over every write size, read sizes dividing it, block lengths, store orders, range starts, bit-array widths.",
-         "6 C16", "Coq proof (data adapter) + differential adapters stream with contract oracle"),
- "C17": ("proof: index 0 rejected before any effect in both arithmetic modes, allocation total on any ring, oversize parity header not resumed, storage writes confined for any arguments; index stream (0, 1, n, n+1, 2^14, 2^16, 2^32-1, the u32 seed-overflow index, random) at sampled positions in debug / release / force-full-r builds and corrupt-flash stream (structured and random headers, adversarial pairs, garbage tables, slots up to 1 MiB) against the model, predicted vs observed panics; one recorded known finding (seed overflow index).",
+ "C16": ("proof for the data adapter (shared words): its three word programs equal programming the block bytes in place for every write size, block length >= write size, range start and index (get-after-store, frame, contiguity), and the executable model equals the proved one; matrix adapter: rows back to back, disjoint, num_rows fits the range, set_row confined to its row; parity adapter: store confined to its padded slot (read-back values of these two by correspondence and oracle); adapters stream over every write size, read sizes dividing it, block lengths, store orders, range starts, bit-array widths.",
+         "6 C16", "Coq proof (data adapter in full, layout / non-interference of the parity and matrix adapters) + differential adapters stream with contract oracle"),
+ "C17": ("proof: index 0 rejected before any effect in both arithmetic modes, allocation total on any ring, oversize parity header not resumed, storage writes confined for any arguments; index stream (0, 1, n, n+1, 2^14, 2^16, 2^32-1, the u32 seed-overflow index, random) at sampled positions in debug / release / force-full-r builds, the single-erasure back-end with indices beyond count + capacity, and corrupt-flash stream (structured and random headers, adversarial pairs, garbage tables, slots up to 1 MiB) against the model, predicted vs observed panics; one recorded known finding (seed overflow index).",
          "6 C17", "Coq proof (totality facts) + differential malformed-input and corrupt-flash streams"),
  "C18": ("proof + fault enumeration: a failed call leaves done/used unchanged except inside the back substitution (theorem, any storage instance); one transient failure at every storage-operation index of generated runs with re-delivery, compared with the fault-free run and with the fault-aware model; the finish window is a recorded known finding.",
          "6 C18", "Coq proof (bookkeeping of failed calls) + exhaustive single-fault injection per run"),
